@@ -116,6 +116,19 @@ def check_shape(g, acc):
     r1, r2 = eq(A, C), eq(C, A)
     if r1 is not True or r2 is not True:
         acc.add_problem(problem("copy_not_equal", dict(case0, difference="copy"), expected=True, observed=[r1, r2]))
+    # the same mappings inserted in the opposite order: attributes, extras and namespace maps are mappings
+    g_rev = gtree.clone(g)
+    for _, n_ in gtree.walk(g_rev):
+        n_["attrs"] = list(reversed(n_["attrs"]))
+        n_["extras"] = list(reversed(n_["extras"]))
+        n_["ns"] = list(reversed(n_["ns"]))
+    if g_rev != g:
+        R = gtree.build(g_rev)
+        n_pairs += 1
+        r1, r2 = eq(A, R), eq(R, A)
+        if r1 is not True or r2 is not True:
+            acc.add_problem(problem("twin_not_equal", dict(case0, difference="same mappings, reversed insertion order"),
+                                    expected=True, observed=[r1, r2]))
     # a distinct tree whose nodes carry the SAME ids (the tree saved to JSON and loaded again)
     from metapype.model import metapype_io
     try:
